@@ -11,6 +11,7 @@ import (
 	"io/ioutil"
 	"os"
 	"path/filepath"
+	"runtime/pprof"
 	"sort"
 	"strconv"
 	"sync"
@@ -67,6 +68,11 @@ func Start(prop, level string) *Run {
 	budget := flag.Duration("budget", 0, "internal wall-clock budget (0 = tier default)")
 	if !flag.Parsed() {
 		flag.Parse()
+	}
+	if pf := os.Getenv("VERIF_CPUPROFILE"); pf != "" {
+		if fh, err := os.Create(pf); err == nil {
+			pprof.StartCPUProfile(fh)
+		}
 	}
 	seed, _ := strconv.Atoi(envOr("VERIF_SEED", "0"))
 	r := &Run{Prop: prop, Level: level, Tier: *tier, Seed: seed, ReplayPath: *replay,
@@ -214,6 +220,7 @@ func Fatalf(format string, a ...interface{}) {
 
 // Finish writes the evidence file, prints KNOWN-FINDING / VIOLATION lines and exits 0 or 1.
 func (r *Run) Finish() {
+	pprof.StopCPUProfile()
 	r.mu.Lock()
 	wall := time.Since(r.start).Seconds()
 	unlisted := 0
